@@ -946,6 +946,9 @@ func c12Correspondence(seed int64, n int, tier, outDir string, rep *Report) {
 	}
 	cw4.Add("["+strings.Join(names2, "; ")+"]", "read-only list")
 	_ = rep.AddCases(cw4)
+
+	// (5) the entry points of the static write-effect condition against the method sets reflection reports (c12we.go)
+	c12EntryCases(rep, outDir)
 }
 
 // ---------------------------------------------------------------- runner
